@@ -34,6 +34,9 @@ NEEDS = {
     "C11_Between": ["linmean", "arithmean", "harmmean", "geomean", "upmean"],
     "C11_Ordering": ["harmmean", "geomean", "arithmean"], "C11_Constants": ["constmeans"],
     "C11_LinearExact": ["linmean_linear"],
+    "X_CellLocations": ["celllocs"], "X_FaceLocations": ["facelocs"], "X_GradFixedBC": ["gradfixed"],
+    "X_FaceCtorScalar": ["facector_scalar"], "X_FaceCtorTuple": ["facector_scalar"], "X_Utility": ["utility"],
+    "X_Integral": ["integral", "volume"],
     "C04_DiffInterior": ["Mdiff"], "C04_ConvInterior": ["Mconv"], "C04_UpInterior": ["Mup"],
 }
 # observed outputs that have a reference counterpart (conformance tripwire)
